@@ -24,6 +24,12 @@ const (
 	repollMore = 3 * time.Second         // additional budget before a wait is given up as inconclusive
 )
 
+// canaryKey sorts before every other key of a case: the sweeper walks the
+// collections in key order, so a sweep that stops early (e.g. at a collection
+// whose next deadline is still far away) still removes the canary and the
+// witness argument then convicts it for everything it left behind.
+const canaryKey = "a0c"
+
 type violation struct {
 	Key  string
 	What string
@@ -904,12 +910,12 @@ func (r *runner) wait(d time.Duration, polling bool) {
 func (r *runner) sweepWait() {
 	r.canaryN++
 	id := "c" + strconv.Itoa(r.canaryN)
-	r.doSet("kc", id, "string", 10, 0)
-	o := r.cols["kc"][id]
+	r.doSet(canaryKey, id, "string", 10, 0)
+	o := r.cols[canaryKey][id]
 	start := time.Now()
 	for {
-		r.poll("exists", "kc", id)
-		if r.cols["kc"][id] != o {
+		r.poll("exists", canaryKey, id)
+		if r.cols[canaryKey][id] != o {
 			break
 		}
 		if time.Since(start) > delta+repollMore {
@@ -1044,7 +1050,7 @@ func (r *runner) restart() {
 	r.drainFences()
 	r.disconnect()
 	// whatever a completed sweep should have removed is absent from the log
-	for _, key := range []string{"ka", "kb", "kc"} {
+	for _, key := range []string{"ka", "kb", canaryKey} {
 		for _, id := range sortedIDs(r.cols[key]) {
 			if r.proven(r.cols[key][id]) {
 				r.remove(false, key, id, "expired (proven by a later sweep) before the restart")
@@ -1451,7 +1457,7 @@ func (r *runner) checkFollower() {
 			r.fail(failKey, "follower does not list %s at %dms although the leader must%s", r.describe(true, "", name, o), r.ms(ha), taint)
 		}
 	}
-	for _, key := range []string{"ka", "kb", "kc"} {
+	for _, key := range []string{"ka", "kb", canaryKey} {
 		s := time.Now()
 		v, err := r.fc.Do("SCAN", key, "IDS")
 		a := time.Now()
@@ -1600,7 +1606,7 @@ func (r *runner) pollEverything() {
 			r.poll(k, key, "")
 		}
 	}
-	r.poll("scanids", "kc", "")
+	r.poll("scanids", canaryKey, "")
 	r.poll("hooks", "", "")
 }
 
